@@ -166,7 +166,10 @@ def run_check(prop, tier, seed, workers, batches=None, runs=None, do_minimise=Tr
                 classes.setdefault(v['class'], v)
         for n, (vclass, v) in enumerate(sorted(classes.items())[:3]):
             if do_minimise:
-                events, info = minimise(prop, v, seed, tier, scratch)
+                try:
+                    events, info = minimise(prop, v, seed, tier, scratch)
+                except Exception as e:   # noqa  minimisation is best effort: never lose the violation over it
+                    events, info = [v['ev']], {'minimised': False, 'error': repr(e)}
             else:
                 events, info = [v['ev']], {'minimised': False}
             doc = {'check': prop, 'engine': 'clocksim', 'seed': seed, 'tier': tier, 'class': vclass,
